@@ -10,3 +10,13 @@ package b6
 //@ func Identifiable.FeatureID
 //@   trusted
 //@   function
+
+// Conversions used by the request handlers: nothing is assumed about them.
+//@ func NewFeatureIDFromProto
+//@   havoc
+//@ func ExpressionFromProto
+//@   havoc
+//@ func FromLiteral
+//@   havoc
+//@ func Expression.ToProto
+//@   havoc
